@@ -272,7 +272,9 @@ def proof_audit(pid, thorough=False):
         obligations += o
         discharged += d
     if thorough and built:
-        p = subprocess.run(["lake", "env", "leanchecker", *mods], cwd=LEAN, capture_output=True, text=True)
+        # (companion modules that could be built in this run, generated-code refinement modules included)
+        xmods = [x["module"] for x in extras if os.path.exists(os.path.join(LEAN, ".lake", "build", "lib", "lean", *x["module"].split(".")) + ".olean")]
+        p = subprocess.run(["lake", "env", "leanchecker", *mods, *xmods], cwd=LEAN, capture_output=True, text=True)
         obligations += 1
         if p.returncode == 0:
             discharged += 1
